@@ -39,6 +39,10 @@ PROP(C05) __CPROVER_ensures(OK ==> (!V_LVALUE(RET) || (g_eval_n >= 1 && RET == O
 #ifdef BUILTIN_TYPE
 ENS_TYPE(BUILTIN_TYPE)
 #endif
+#ifdef BUILTIN_TYPE_FOLLOWS_COMPLEX
+/* C02: type() is complex for a complex argument and decimal otherwise (blocc/builtin/builtin_<name>.cpp); value() agrees */
+PROP(C02) __CPROVER_ensures((OK && g_eval_n >= 1) ==> ((V_IS(A1, IMAGINARY) ? V_IS(RET, IMAGINARY) : V_IS(RET, NUMERIC)) && VALID_TAG(RET)))
+#endif
 ;
 
 #include FNS_C
